@@ -3,6 +3,7 @@ package main
 import (
 	"fmt"
 	"go/token"
+	"sort"
 	"strings"
 
 	"golang.org/x/tools/go/ssa"
@@ -673,6 +674,7 @@ func (l linform) String() string {
 			parts = append(parts, fmt.Sprintf("%d*%s", n, a))
 		}
 	}
+	sort.Strings(parts)
 	return fmt.Sprintf("%v%+d", parts, l.k)
 }
 
